@@ -120,7 +120,7 @@ func (l *Lexer) NextToken() token.Token {
 		return tok
 	}
 
-	if l.char == '}' && l.peekChar() == '}' && l.countCurlyBraces == 0 {
+	if !l.isHTML && l.char == '}' && l.peekChar() == '}' && l.countCurlyBraces == 0 {
 		return l.bracesToken(token.RBRACES, "}}")
 	}
 
